@@ -176,6 +176,7 @@ pub fn responder(addr: u8, r: &mut Rng, tsdr_cap: u16) -> SlaveCfg {
         sc_for_empty: true,
         honour_watchdog: false,
         fdl_status_code: if r.chance(1, 4) { *r.pick(&[1u8, 2, 3, 8, 9, 10, 12, 13]) } else { 0 },
+        delimiter_payload: false,
     }
 }
 
@@ -559,7 +560,12 @@ pub fn dp_world(r: &mut Rng, tier: Tier, o: &DpOpts) -> (WorldCfg, OracleCfg, Ve
         };
         let user_prm = if r.chance(1, 30) { None } else { Some(r.bytes(up_len)) };
         let config = if r.chance(1, 30) { None } else { Some(r.bytes(cfg_len)) };
-        let ident = r.next_u64() as u16;
+        // (idents, like payloads, sometimes made of bytes that look like frame delimiters)
+        let ident = if r.chance(1, 5) {
+            u16::from(*r.pick(&[0x10u8, 0x68, 0xA2, 0xDC, 0xE5, 0x16])) << 8 | u16::from(*r.pick(&[0x10u8, 0x68, 0xA2, 0xDC, 0xE5, 0x16]))
+        } else {
+            r.next_u64() as u16
+        };
         let max_tsdr = r.range(u64::from(min_tsdr), u64::from(tsdr_cap).max(u64::from(min_tsdr))) as u16;
         let pc = PeriphCfg {
             addr: a,
@@ -601,6 +607,7 @@ pub fn dp_world(r: &mut Rng, tier: Tier, o: &DpOpts) -> (WorldCfg, OracleCfg, Ve
             sc_for_empty: r.chance(1, 2),
             honour_watchdog: r.chance(1, 2),
             fdl_status_code: 0,
+            delimiter_payload: r.chance(1, 5),
         };
         if o.mismatch && r.chance(1, 6) {
             match r.below(4) {
@@ -1012,6 +1019,7 @@ pub fn adv_world(r: &mut Rng, tier: Tier, o: &AdvOpts) -> (WorldCfg, OracleCfg, 
                                 sc_for_empty: r.chance(1, 2),
                                 honour_watchdog: r.chance(1, 2),
                                 fdl_status_code: 0,
+                                delimiter_payload: r.chance(1, 5),
                             });
                         }
                     }
@@ -1456,6 +1464,64 @@ pub fn scan_world(r: &mut Rng, tier: Tier) -> (WorldCfg, OracleCfg, Vec<Fault>) 
     (world, oracle, faults)
 }
 
+/// Systematic fault placement for the *dp* engine (index -> one or two faults at the n-th request
+/// or reply).  Singles come first (48 positions x 10 kinds), then pairs.
+fn systematic_dp_faults(idx: u64, w: &WorldCfg, random_plan: &[Fault], quiet_phase: bool) -> Vec<Fault> {
+    const POS: u64 = 48;
+    const KINDS: u64 = 10;
+    let nsl = w.slaves.len() as u64;
+    let one = |n: u64, a: u64, out: &mut Vec<Fault>| {
+        let sl = (n % nsl) as usize;
+        let req = Trigger::NthTx { n: n as u32, class: TxClass::DpRequest };
+        let rep = Trigger::NthTx { n: n as u32, class: TxClass::FromStub };
+        let (trig, kind) = match a {
+            0 => (req, FaultKind::Drop),
+            1 => (rep, FaultKind::Drop),
+            2 => (rep, FaultKind::BitFlip { byte: (n * 7 % 11) as u16, bit: (n % 8) as u8 }),
+            3 => (rep, FaultKind::Truncate { keep: (n % 5 + 1) as u16 }),
+            4 => (req, FaultKind::SlaveReset { slave: sl }),
+            5 => {
+                // power cycle: off at the n-th request, on again a few requests later
+                out.push(Fault { trig: Trigger::NthTx { n: (n + 3 + n % 7) as u32, class: TxClass::DpRequest }, kind: FaultKind::SlavePower { slave: sl, on: true }, delay_us: 0 });
+                (req, FaultKind::SlavePower { slave: sl, on: false })
+            }
+            6 => (req, FaultKind::SlaveByz { slave: sl, shape: ByzShape::Silent, count: (n % 17 + 1) as u8 }),
+            7 => (req, FaultKind::UserDiag { station: 0, app: 0, periph: sl }),
+            8 => (
+                req,
+                FaultKind::SlaveFlag {
+                    slave: sl,
+                    flag: [SlaveFlagKind::PrmFault, SlaveFlagKind::CfgFault, SlaveFlagKind::NotReady, SlaveFlagKind::PrmReq, SlaveFlagKind::StatDiag][(n % 5) as usize].clone(),
+                    count: (n % 3 + 1) as u8,
+                },
+            ),
+            _ => {
+                if quiet_phase {
+                    (req, FaultKind::RxDrop { node: 0 })
+                } else {
+                    (rep, FaultKind::Dup { node: 0 })
+                }
+            }
+        };
+        out.push(Fault { trig, kind, delay_us: 0 });
+    };
+    let mut out = Vec::new();
+    let single = idx % (POS * KINDS);
+    one(single % POS, single / POS, &mut out);
+    let second = idx / (POS * KINDS);
+    if second > 0 {
+        let s = (second - 1) % (POS * KINDS);
+        one(s % POS, s / POS, &mut out);
+    }
+    // slaves that stay off for good / come late belong to the population plan, not to the storm
+    for f in random_plan {
+        if matches!(f.kind, FaultKind::SlavePower { on: false, .. }) && matches!(f.trig, Trigger::At(_)) && random_plan.iter().filter(|g| matches!((&g.kind, &f.kind), (FaultKind::SlavePower { slave: a, on: true }, FaultKind::SlavePower { slave: b, .. }) if a == b)).count() == 0 {
+            out.push(f.clone());
+        }
+    }
+    out
+}
+
 pub fn generate(check: &str, tier: Tier, base_seed: u64, k: u64) -> Scenario {
     let seed = derive(base_seed, check, k);
     let mut r = Rng::derived(seed, "gen", 0);
@@ -1774,7 +1840,17 @@ pub fn generate(check: &str, tier: Tier, base_seed: u64, k: u64) -> Scenario {
                 quiet_phase: check == "C07",
                 take_every_poll: true,
             };
-            dp_world(&mut r, tier, &o)
+            let (w, oc, f) = dp_world(&mut r, tier, &o);
+            // Every fourth run: the random storm is replaced by a *systematic* placement of one or
+            // two faults ("a fault at every point of the exchange"): the n-th DP request or the
+            // n-th answer of a slave, for every n of the bring-up and the first cycles and every
+            // kind of the alphabet below; the configuration stays random.
+            if k % 4 == 3 && !w.slaves.is_empty() {
+                let f = systematic_dp_faults(k / 4, &w, &f, o.quiet_phase);
+                (w, oc, f)
+            } else {
+                (w, oc, f)
+            }
         }
         other => panic!("harness: no generator for check {other}"),
     };
